@@ -404,7 +404,7 @@ package priority
 
 //@ func (*Discipline).isInputExists
 //@   requires [*] dsc != nil
-//@   ensures [*] result <==> dom(dsc.inputs, priority)
+//@   ensures [* C01 C07 C17] result <==> dom(dsc.inputs, priority)
 
 //@ func (*Discipline).clearActual
 //@   requires [*] WF(dsc)
@@ -767,11 +767,11 @@ package priority
 //@   modifies content(dsc.tactic), content(dsc.actual), content(dsc.inputs), dsc.priorities, anyelems(dsc.priorities), dsc.strategic, dsc.uncrowded, dsc.useful, gPerm, gInv, gDivErr, gInfl, gInflP, gClock, gClosedIn, gStop, gGraceful, gPset, gCompleted, gIn, gInN, gOutNP, gPendSet, gPendP, gIntStopped
 
 //@ func Opts.isValid
-//@   ensures [*] (result == nil) <==> (opts.Divider != nil && opts.HandlersQuantity != 0 && opts.Feedback != nil && opts.Output != nil)
+//@   ensures [* C01 C02] (result == nil) <==> (opts.Divider != nil && opts.HandlersQuantity != 0 && opts.Feedback != nil && opts.Output != nil)
 
 //@ func Opts.normalize
-//@   ensures [*] result.Divider == opts.Divider && result.Feedback == opts.Feedback && result.HandlersQuantity == opts.HandlersQuantity && result.Inputs == opts.Inputs && result.Output == opts.Output
-//@   ensures [*] result.Ctx != nil
+//@   ensures [* C01 C02] result.Divider == opts.Divider && result.Feedback == opts.Feedback && result.HandlersQuantity == opts.HandlersQuantity && result.Inputs == opts.Inputs && result.Output == opts.Output
+//@   ensures [* C01 C02] result.Ctx != nil
 
 // The ghost state of a discipline that does not exist yet is empty.
 // C16: Stop() returns when the goroutine calls Complete(); a discipline that was handed out has that goroutine.
@@ -916,11 +916,11 @@ package priority
 //@ event go priority.(*Simple).main
 //@   effect gSMainStarted := true
 //@ func SimpleOpts.isValid
-//@   ensures [*] (result == nil) <==> (opts.Handle != nil && len(opts.Inputs) != 0)
+//@   ensures [* C01 C02] (result == nil) <==> (opts.Handle != nil && len(opts.Inputs) != 0)
 
 //@ func SimpleOpts.normalize
-//@   ensures [*] result.Divider == opts.Divider && result.Handle == opts.Handle && result.HandlersQuantity == opts.HandlersQuantity && result.Inputs == opts.Inputs
-//@   ensures [*] result.Ctx != nil
+//@   ensures [* C01 C02 C16] result.Divider == opts.Divider && result.Handle == opts.Handle && result.HandlersQuantity == opts.HandlersQuantity && result.Inputs == opts.Inputs
+//@   ensures [* C01 C02 C16] result.Ctx != nil
 
 //@ func NewSimple
 //@   requires [C05] saturation-is-stated-for-buffered-inputs: forall k :: dom(opts.Inputs, k) ==> cap(opts.Inputs[k]) != 0
